@@ -3,6 +3,7 @@
 use xvcommon::{Args, Report};
 
 mod e_cache;
+mod e_recon;
 mod e_session;
 mod e_sflight;
 mod monclient;
@@ -16,6 +17,7 @@ fn main() {
     match engine.as_str() {
         "session" => e_session::run(&args, &mut rep),
         "faults" => e_session::run_faults(&args, &mut rep),
+        "recon" => e_recon::run(&args, &mut rep),
         "sflight" => e_sflight::run(&args, &mut rep),
         "cache_seq" => e_cache::run_seq(&args, &mut rep),
         "cache_fault" => e_cache::run_fault(&args, &mut rep),
